@@ -10,7 +10,7 @@ git -C /repo worktree add -q --detach "$W" HEAD || exit 2
 git -C "$W" apply /verif/seeded/$name/patch.diff || { echo "patch does not apply"; git -C /repo worktree remove --force "$W"; exit 2; }
 out=/var/tmp/hdw-mt-out/$name; mkdir -p "$out"
 cd /verif
-VERIF_REPO="$W" VERIF_OUT="$out" VERIF_SCRATCH=/var/tmp/hdw-mt-scratch bin/check "$prop" "$@" > "$out/$prop.log" 2>&1
+VERIF_REPO="$W" VERIF_OUT="$out" VERIF_SCRATCH=/var/tmp/hdw-mt-scratch-$$ bin/check "$prop" "$@" > "$out/$prop.log" 2>&1
 rc=$?
 git -C /repo worktree remove --force "$W"
 echo "MUTATION $name property=$prop exit=$rc $(grep -c '^VIOLATION' "$out/$prop.log") violation line(s)"
